@@ -94,19 +94,19 @@ package timeutil
 
 //@ # ---- day ------------------------------------------------------------------------------
 //@ func day.CalcSegmentTime
-//@   prop C13
+//@   prop C04 C13
 //@   arith math
 //@   requires tsOK(timestamp)
 //@   ensures result == daySeg(timestamp)
 //@ end
 //@ func day.CalcFamily
-//@   prop C13
+//@   prop C04 C13
 //@   arith math
 //@   requires tsOK(timestamp) && calMs(segmentTime) && segmentTime <= timestamp
 //@   ensures int64(result) == (timestamp - segmentTime) / 3600000
 //@ end
 //@ func day.CalcFamilyStartTime
-//@   prop C13
+//@   prop C04 C13
 //@   arith math
 //@   requires calMs(segmentTime) && familyTime >= 0 && familyTime < 1000000
 //@   ensures result == segmentTime + int64(familyTime) * 3600000
@@ -124,7 +124,7 @@ package timeutil
 //@   ensures result == dayFamilyTime(timestamp)
 //@ end
 //@ func day.CalcSlot
-//@   prop C13
+//@   prop C04 C13
 //@   arith math
 //@   requires interval >= 1000 && tsOK(timestamp) && calMs(baseTime) && baseTime <= timestamp
 //@   requires timestamp <= dayFamilyEnd(baseTime)
@@ -135,20 +135,20 @@ package timeutil
 
 //@ # ---- month ----------------------------------------------------------------------------
 //@ func month.CalcSegmentTime
-//@   prop C13
+//@   prop C04 C13
 //@   arith math
 //@   requires tsOK(timestamp)
 //@   ensures result == monthSeg(timestamp)
 //@ end
 //@ func month.CalcFamily
-//@   prop C13
+//@   prop C04 C13
 //@   arith math
 //@   params timestamp segmentTime
 //@   requires tsOK(timestamp)
 //@   ensures result == cal_day(timestamp / 1000)
 //@ end
 //@ func month.CalcFamilyStartTime
-//@   prop C13
+//@   prop C04 C13
 //@   arith math
 //@   requires calMs(segmentTime) && familyTime >= 0 && familyTime < 1000000
 //@   ensures result == cal_date(cal_year(segmentTime / 1000), cal_month(segmentTime / 1000), familyTime) * 1000
@@ -166,7 +166,7 @@ package timeutil
 //@   ensures result == monthFamilyTime(timestamp)
 //@ end
 //@ func month.CalcSlot
-//@   prop C13
+//@   prop C04 C13
 //@   arith math
 //@   requires interval >= 300000 && tsOK(timestamp) && calMs(baseTime) && baseTime <= timestamp
 //@   requires timestamp <= monthFamilyEnd(baseTime)
@@ -177,20 +177,20 @@ package timeutil
 
 //@ # ---- year -----------------------------------------------------------------------------
 //@ func year.CalcSegmentTime
-//@   prop C13
+//@   prop C04 C13
 //@   arith math
 //@   requires tsOK(timestamp)
 //@   ensures result == yearSeg(timestamp)
 //@ end
 //@ func year.CalcFamily
-//@   prop C13
+//@   prop C04 C13
 //@   arith math
 //@   params timestamp segmentTime
 //@   requires tsOK(timestamp)
 //@   ensures result == cal_month(timestamp / 1000)
 //@ end
 //@ func year.CalcFamilyStartTime
-//@   prop C13
+//@   prop C04 C13
 //@   arith math
 //@   requires calMs(segmentTime) && familyTime >= 0 && familyTime < 1000000
 //@   ensures result == cal_date(cal_year(segmentTime / 1000), familyTime, 1) * 1000
@@ -208,7 +208,7 @@ package timeutil
 //@   ensures result == yearFamilyTime(timestamp)
 //@ end
 //@ func year.CalcSlot
-//@   prop C13
+//@   prop C04 C13
 //@   arith math
 //@   requires interval >= 3600000 && tsOK(timestamp) && calMs(baseTime) && baseTime <= timestamp
 //@   requires timestamp - baseTime < 2678400000
